@@ -31,6 +31,7 @@ MODULES = {
     'C08': 'harness.c08',
     'C09': 'harness.c09',
     'C10': 'harness.c10',
+    'C11': 'harness.c11',
     'C12': 'harness.c12',
     'C13': 'harness.c13',
 }
